@@ -539,6 +539,11 @@ def update_scenarios_exhaustive(tier):
     # corrupt file at update time
     out.append({'groups': base(), 'added': ['n1'], 'args': [], 'corrupt': True, 'label': 'corrupt'})
     out.append({'groups': base(), 'added': ['n1'], 'args': ['a'], 'corrupt': True, 'label': 'corrupt-named'})
+    # reread of an intermediate version, a further edit, then update
+    for args in ([], ['n1'], ['all']):
+        out.append({'groups': by(), 'added': ['n1', 'n2'], 'args': args, 'corrupt': False, 'two_step': True,
+                    'label': 'two-step:%s' % ' '.join(args)})
+    out.append({'groups': base(), 'added': ['n1'], 'args': [], 'corrupt': False, 'two_step': True, 'label': 'two-step:mixed'})
     # nothing to do
     out.append({'groups': by(), 'added': [], 'args': [], 'corrupt': False, 'label': 'noop'})
     return out
@@ -573,7 +578,8 @@ def random_update_scenario(rng):
     else:
         pool = [g['name'] for g in groups] + added + ['zzz']
         args = [rng.choice(pool) for _ in range(rng.choice([1, 1, 2, 3]))]
-    return {'groups': groups, 'added': added, 'args': args, 'corrupt': rng.random() < 0.05, 'label': 'random'}
+    return {'groups': groups, 'added': added, 'args': args, 'corrupt': rng.random() < 0.05, 'label': 'random',
+            'two_step': bool(added) and rng.random() < 0.3}
 
 
 # ------------------------------------------------ %-format corruptions of expanded options
@@ -699,8 +705,10 @@ def reread_sequences(tier):
                             continue
                         s1, _ = host(h, option, t1)
                         s2, _ = host(h, option, t2)
+                        if quick and len(vals) > 4 and option not in important and (vals.index((t1, k1)) + vals.index((t2, k2))) % 2:
+                            continue
                         out.append(('seq:fresh:%s:%s:%r' % (h, option, [t1, t2]), [[BYSTANDER], s1, s2]))
-                        if option in important or not quick:
+                        if (option in LOGFILE_OPTIONS + ('environment', 'socket_mode')) or not quick:
                             for (t0, k0) in vals[:2]:
                                 s0, _ = host(h, option, t0)
                                 out.append(('seq:active:%s:%s:%r' % (h, option, [t0, t1, t2]), [s0, s1, s2]))
